@@ -116,7 +116,7 @@ theorem expectLoop_spec : ∀ (f : Nat) (pats : List Pat) (buf : Bytes) (ri : RI
       rw [dataOf_cons_some _ _ _ hdata] at hbytes
       simp only [dataOf_nil, List.flatten_cons, List.flatten_nil, List.append_nil] at hbytes
       have hblen : 0 < b.length := List.length_pos_iff.mpr hbne
-      have hrec := ih pats (buf ++ b) { ri with got := ri.got + b.length } s2 hmax (by omega) (hfr.wf hwf)
+      have hrec := ih pats (buf ++ b) { ri with got := ri.got + b.length, started := true } s2 hmax (by omega) (hfr.wf hwf)
         (by rw [hfr.chunk]; exact hc)
       cases hfm : firstMatch (buf ++ b) 0 pats with
       | some v =>
